@@ -13,6 +13,9 @@ import os
 
 from ..core import scratch_dir, rm, pmap, HarnessError
 from .. import farm
+from . import c09
+
+preimport = c09.preimport  # the concurrent part runs under the controlled scheduler (vf/sched.py)
 
 FORMS = ("bare", "modattr", "alias", "wrapper", "comp", "lambda", "partial", "modattr-local")
 KINDS = ("M", "E", "P")  # memento auto, memento explicit, plain
@@ -272,6 +275,96 @@ def graph_case(args):
     return out
 
 
+REBIND_SRC = """import sys
+import twosigma.memento as m
+
+%(decA)s
+def A(x=1):
+    sys.audit('vf.body', 'A', x)
+    return ['A']
+
+%(decB)s
+def B(x=1):
+    sys.audit('vf.body', 'B', x)
+    return ['B']
+
+t = A
+
+@m.memento_function
+def M(x=1, hid=None):
+    sys.audit('vf.body', 'M', x)
+    if hid is not None:
+        return ['M', globals()[hid](0)]
+    return ['M', t(x)]
+"""
+
+
+def _rebind_child(root, store, decA, decB):
+    import importlib
+    import sys
+
+    from .. import audit
+    from twosigma.memento.exception import UndeclaredDependencyError
+
+    audit.install()
+    farm.set_env(store)
+    os.makedirs(os.path.join(root, "vfr"))
+    open(os.path.join(root, "vfr", "__init__.py"), "w").close()
+    open(os.path.join(root, "vfr", "a.py"), "w").write(REBIND_SRC % {"decA": decA, "decB": decB})
+    sys.path.insert(0, root)
+    a = importlib.import_module("vfr.a")
+    obs = []
+    n = [10]
+
+    def look():
+        dg = a.M.dependencies()
+        o = {"trans": sorted(x.qualified_name_without_version.split(":")[-1] for x in dg.transitive_memento_fn_dependencies()),
+             "direct": sorted(x.qualified_name_without_version.split(":")[-1] for x in dg.direct_memento_fn_dependencies()),
+             "links": sorted((r.src.split(":")[-1].split("#")[0], r.target.split(":")[-1].split("#")[0]) for r in dg.df().itertuples())}
+        for hid in ("A", "B"):
+            n[0] += 1
+            try:
+                a.M(n[0], hid=hid)
+                o["call-" + hid] = "ok"
+            except UndeclaredDependencyError:
+                o["call-" + hid] = "refused"
+            except Exception as e:
+                o["call-" + hid] = "exc:%s" % type(e).__name__
+        return o
+
+    obs.append(look())
+    a.t = a.B  # the name now points at the other function
+    obs.append(look())
+    a.t = a.A
+    obs.append(look())
+    return obs
+
+
+def rebind_case(args):
+    """A name in the body is re-pointed, in the running process, from one memento function to another: the reported
+    closure and the run-time check must follow the reference graph of the moment."""
+    decA, decB, label = args
+    top = scratch_dir("c14r")
+    out = {"evaluations": 1, "states": 3, "transitions": 3, "traces": 1, "violations": [], "outcomes": ["rebind|" + label]}
+    try:
+        try:
+            obs = farm.fork_call(_rebind_child, top, os.path.join(top, "store"), decA, decB)
+        except farm.ChildFailed as e:
+            raise HarnessError("rebind child failed: %s" % e)
+        for k, (o, tgt) in enumerate(zip(obs, ("A", "B", "A"))):
+            other = "B" if tgt == "A" else "A"
+            want = {"trans": [tgt], "direct": [tgt], "links": [("M", tgt)], "call-" + tgt: "ok", "call-" + other: "refused"}
+            if o != want:
+                diff = sorted(x for x in want if o.get(x) != want[x])
+                out["violations"].append(("rebind|%s|step:%d|differs:%s" % (label, k, "+".join(diff)),
+                                          "M refers to t; t = %s%s: observed %s, the reference graph gives %s" % (tgt, " (re-pointed in the running process)" if k else "", {x: o.get(x) for x in diff}, {x: want[x] for x in diff}),
+                                          {"rebind": [decA, decB, label]}))
+                break
+    finally:
+        rm(top)
+    return out
+
+
 def _preds(edges, targets):
     return {a for (a, j) in edges if j in targets}
 
@@ -349,6 +442,18 @@ def run(ctx):
         random.Random(ctx.seed).shuffle(tasks)
     res = pmap(graph_case, tasks, chunksize=4)
     ctx.merge(res)
+    E1, E2, AUTO = "@m.memento_function(version='1')", "@m.memento_function(version='2')", "@m.memento_function"
+    rb = [(E1, E1, "explicit-same-version"), (E1, E2, "explicit-different-versions"), (AUTO, AUTO, "auto"), (AUTO, E1, "auto-and-explicit")]
+    ctx.merge(pmap(rebind_case, rb, chunksize=1))
+    # the run-time check decides by the calling frame: it must be the frame of the calling THREAD
+    cs = []
+    for be in ("mem",) if not thorough else ("mem", "fs+cache-all"):
+        cs.append(("%s|cold|exempt-caller-vs-hidden-call" % be, be, "cold", [[("ex", 1)], [("hid_a", 2)]]))
+        cs.append(("%s|cold|exempt-caller-vs-top-level-call" % be, be, "cold", [[("ex", 1)], [("solo_a", 2)]]))
+        cs.append(("%s|cold|hidden-call-vs-nested" % be, be, "cold", [[("hid_a", 2)], [("top1", 1)]]))
+    c09.concurrent_part(ctx, cs, False, "a thread inside an explicitly versioned (exempt) function or inside a nested call tree while another "
+                        "thread makes a hidden call (must be refused) or an ordinary top-level call (must not be)", bound=2 if thorough else 1)
+    ctx.rule += " Plus: a name re-pointed between two memento functions in the running process (4 kind pairs), closure and run-time check before / after / back."
     ctx.extra["graphs"] = len(tasks)
     t = tasks[len(tasks) // 2]
     ctx.extra["graphs_with_module_layouts"] = len(lay)
@@ -357,6 +462,14 @@ def run(ctx):
 
 def replay(ctx, art):
     a = art["artefact"]
+    if "scn" in a:
+        return c09.replay_concurrent("C14", art)
+    if "rebind" in a:
+        r = rebind_case(tuple(a["rebind"]))
+        for v in r["violations"]:
+            print(v[0], "\n", v[1])
+        print("REPLAY property=C14 result=%s" % bool(r["violations"]))
+        return 1 if r["violations"] else 0
     forms = tuple((tuple(k), v) for k, v in a["forms"])
     r = graph_case((a["n"], tuple(a["kinds"]), tuple(tuple(e) for e in a["edges"]), forms) + ((a["layout"],) if a.get("layout") else ()))
     for v in r["violations"]:
